@@ -6,6 +6,14 @@ var stdAssume = []string{
 }
 
 var props = map[string]*propCfg{
+	"C13": {
+		Engine: "execsim", Level: "fault_enumeration",
+		QuickRuns: 3000, ThoroughRuns: 400000, QuickSeconds: 45, ThoroughSeconds: 1500, TimeoutS: 30,
+		Rule: "one run = one generated world containing one instrumented try statement (bracketed by mark() calls, followed by state probes of '.', isset of every variable incl. the catch variable, yield content, Execute variables) placed under tape-chosen enclosing constructs; EVERY dynamic probe call inside its body is made the failing one (plus the fault-free run and the twin program with the try wrapper removed). Non-trivial = at least one fault point inside the body was judged by the spliced-output oracle; distinct = hash of (sources, data, catch form).",
+		Assumptions: append([]string{"bodies only declare their own variables (roll-back of assignments to outer variables is not demanded)", "try statements dynamically nested in another try/exec are skipped by the spliced-output oracle (their offsets are not observable)"}, stdAssume...),
+		Real:        []string{"lexer", "parser", "interpreter (executeTry and all enclosing constructs)", "InMemLoader", "fastprinter"},
+		Stub:        []string{"simulated Runtime/ranger pools (verif hooks)", "SimWriter", "probe functions mark/fail"},
+	},
 	"C10": {
 		Engine: "execsim", Level: "fault_enumeration",
 		QuickRuns: 400, ThoroughRuns: 40000, QuickSeconds: 45, ThoroughSeconds: 1500, TimeoutS: 30,
